@@ -1,4 +1,5 @@
 import VaxisModel.Gen.Writers
+import VaxisModel.Gen.ImageCtors
 
 /-!
 Model of how `vaxis.New` settles `graphicsProtocol` and of what `NewImage` then hands out (vaxis.go,
@@ -31,6 +32,66 @@ def detected (sixelAdv kittyAdv pixKnown : Bool) : Proto :=
   let p := if kittyAdv then raise p .kitty else p
   let p := raise p .halfBlock
   if pixKnown then p else .halfBlock
+
+/-! ### The same, interpreted from the regenerated assignments (`Gen.ImageCtors.protocolSteps`) -/
+
+/-- What the run depends on: which of the two notifications the start-up loop receives, and whether
+`reportWinsize` knows a pixel size.  The environment overrides (`VAXIS_GRAPHICS`, `ASCIINEMA_REC`) are unset. -/
+structure Env where
+  sixelAdv : Bool
+  kittyAdv : Bool
+  pixKnown : Bool
+
+def allProtos : List Proto := [.noGraphics, .fullBlock, .halfBlock, .sixelGraphics, .kitty]
+
+def protoOfName (s : String) : Option Proto := allProtos.find? fun c => s = c.name
+
+/-- One guard of a guard stack; `none` = a guard this interpreter does not know (fails closed). -/
+def evalGuard (e : Env) (p : Proto) (g : String) : Option Bool :=
+  if g = "for" then some true
+  else if g = "select ev := <-vx.queue" then some true
+  else if g = "type capabilitySixel" then some e.sixelAdv
+  else if g = "type kittyGraphics" then some e.kittyAdv
+  else if g = "if ws.XPixel == 0 || ws.YPixel == 0" then some (!e.pixKnown)
+  else if g = "if os.Getenv(\"ASCIINEMA_REC\") != \"\"" then some false
+  else if g = "switch os.Getenv(\"VAXIS_GRAPHICS\") default" then some true
+  else if ["none", "full", "half", "sixel", "kitty"].any (fun v => g = "switch os.Getenv(\"VAXIS_GRAPHICS\") case \"" ++ v ++ "\"") then some false
+  else match allProtos.find? (fun c => g = "if vx.graphicsProtocol < " ++ c.name) with
+    | some c => some (p.rank < c.rank)
+    | none => none
+
+def evalGuards (e : Env) (p : Proto) : List String → Option Bool
+  | [] => some true
+  | g :: r => match evalGuard e p g with
+    | some true => evalGuards e p r
+    | some false => some false
+    | none => none
+
+/-- Straight-line run of guarded assignments (no calls). -/
+def runPlain (e : Env) : List (String × List String × String) → Proto → Option Proto
+  | [], p => some p
+  | (_, gs, w) :: r, p =>
+    match evalGuards e p gs with
+    | some true => (protoOfName w).bind fun c => runPlain e r c
+    | some false => runPlain e r p
+    | none => none
+
+/-- The steps of `New`, with the steps of `applyQuirks` run where it is called (unguarded). -/
+def runNew (e : Env) (quirks : List (String × List String × String)) : List (String × List String × String) → Proto → Option Proto
+  | [], p => some p
+  | (_, gs, w) :: r, p =>
+    if w = "call applyQuirks" then
+      (if gs.isEmpty then (runPlain e quirks p).bind fun c => runNew e quirks r c else none)
+    else match evalGuards e p gs with
+      | some true => (protoOfName w).bind fun c => runNew e quirks r c
+      | some false => runNew e quirks r p
+      | none => none
+
+def detectedFrom (steps : List (String × List String × String)) (e : Env) : Option Proto :=
+  runNew e (steps.filter fun s => s.1 == "applyQuirks") (steps.filter fun s => s.1 == "New") .noGraphics
+
+/-- `graphicsProtocol` after `New`, as the current source settles it. -/
+def detectedGen (e : Env) : Option Proto := detectedFrom VaxisModel.Gen.ImageCtors.protocolSteps e
 
 /-- The classes of image objects (Go type names; `none` = the error return). -/
 inductive Cls | fullBlock | halfBlock | sixel | kitty | none
